@@ -55,6 +55,9 @@ type Outcome struct {
 	SelPath     string   // Request.SelectedRoutePath() seen by the handler
 	Invocations int
 	PanicVal    string
+	// SeenOther: stages (observing filters, the handler) to which Request.SelectedRoute() was another
+	// route than the one whose function ran ("stage=operation"); empty = all saw the route that ran
+	SeenOther []string
 }
 
 func (c Config) Sx() *sx.Node {
